@@ -104,19 +104,24 @@ def one(ctx, data, meta=None, opts=((False, False), (True, False), (True, True))
                 ctx.fail("the anchored text is not the text between the comment's range markers", c, {'reference': tup[0], 'expected_tokens': ranges[e['id']]}); good = False; continue
             ok = any(''.join(allruns[b:b + n]) == tup[0] for b in range(len(allruns) + 1) for n in range(0, len(allruns) - b + 1)) if len(allruns) < 120 else True
             if not ok: ctx.fail('the anchored text is not a concatenation of consecutive run strings of body_runs', c, tup[0]); good = False
-    # the run-string machine (Spec/Runs.lean, the spec of C12_between / walk_runs) against the implementation: for every paragraph of
-    # the main part without nested paragraphs that is not a list item, the machine's strings are the record's run strings (html off)
-    case0, ords = pk.model_case(data, False, False)
-    mr = ctx.drv.ask({**case0, 'op': 'runs'})
-    i0 = pk.observe(data, False, False, ['pars'])
-    if isinstance(mr, dict) and 'ok' in mr and 'ok' in i0.get('body_pars', {}):
+    # the run machine (Spec/Runs.lean, the spec of walk_runs / C12_between) against the implementation, in BOTH html modes: for every
+    # paragraph of the main part without nested paragraphs that is not a list item, the machine's runs (tags and rendered strings)
+    # are the record's runs
+    for hm in (False, True):
+        case0, ords = pk.model_case(data, hm, False)
+        mr = ctx.drv.ask({**case0, 'op': 'runs'})
+        i0 = pk.observe(data, hm, False, ['pars'])
+        if not (isinstance(mr, dict) and 'ok' in mr and 'ok' in i0.get('body_pars', {})): continue
         recs = {tuple(r['elem']): r for r in flat(i0['body_pars']['ok'], 4) if r.get('elem')}
         for ent in mr['ok']:
             key = ords.get(ent['elem']); rec = recs.get(tuple(key)) if key else None
             if rec is None or 'ok' not in ent['machine']: continue
-            ctx.count('paragraphs compared with the run-string machine')
-            if rec['runs'] != ent['machine']['ok']['strings']:
-                ctx.diff('run strings of a paragraph vs the run-string machine', case_payload(data, html=False, dup=False, paragraph=list(key)), rec['runs'], ent['machine']['ok']['strings']); good = False
+            ctx.count('paragraphs compared with the run machine (html=%s)' % hm)
+            own = rec['runs'][1:-1] if rec.get('hs') else rec['runs']
+            tags = [r_[0] for r_ in rec['rs'] if r_[1] != '']
+            if own != ent['machine']['ok']['strings'] or tags != ent['machine']['ok']['styles']:
+                ctx.diff('runs of a paragraph vs the run machine', case_payload(data, html=hm, dup=False, paragraph=list(key)),
+                         [own, tags], [ent['machine']['ok']['strings'], ent['machine']['ok']['styles']]); good = False
     if good: ctx.validated += 1
     if len(ranges) >= 2 and croot is not None: ctx.nontrivial(jhash(data.hex()))
     return good
